@@ -7,7 +7,7 @@ check_c08(ctx): advertised d against an exhaustive CSS search on the implementat
 import numpy as np
 
 from harness.common import bitstr, rowsstr, exc_class
-from harness.lat_rotplanar import (ENGINE, direct_code_checks, direct_flatten_checks, direct_distance_check,
+from harness.lat_rotplanar import (ENGINE, guard, direct_code_checks, direct_flatten_checks, direct_distance_check,
                                    ctor_args, ctor_result, int_like, kernel_code_items, kernel_shard, idxs)
 
 FAM = 'color666'
@@ -47,7 +47,7 @@ def check_c07(ctx):
     out = ctx.model(ENGINE, req)
     kern = []
     req2, exp2 = [], []
-    for i, s in enumerate(sizes):
+    def whole(i, s):
         code = Color666Code(s)
         inp = 'Color666Code(%d)' % s
         m = out[4 * i].split(' ')
@@ -96,6 +96,11 @@ def check_c07(ctx):
         ctx.count((FAM, s), True, 'color666-code', {'code': inp, 'n_k_d': list(code.n_k_d)} if s == 5 else None)
         if s in (3, 5, 7):
             kern.append(kernel_code_items('(color_code %d)' % s, code))
+
+    for i, s in enumerate(sizes):
+        if not guard(ctx, FAM, s, lambda: whole(i, s)):
+            m = min(len(req2), len(exp2))
+            del req2[m:], exp2[m:]
     # the float formula against exact integer arithmetic for large rows (2r+1)^2 up to ~2^52, and the model on them
     code = Color666Code(3)
     big = [10 ** k + d for k in range(2, 8) for d in range(0, 3)] + [2 ** 25 - 1 - d for d in range(3)] \
@@ -117,7 +122,7 @@ def check_c07(ctx):
     req2.append('c6_flats %s' % idxs(pairs))
     exp2.append(('color666.flatten-formula(large rows)', 'rows up to 2^25', ','.join(str(v) for v in flats)))
     # ---- lattice Pauli API --------------------------------------------------------------------------
-    for s in _sizes(small):
+    def api(s):
         code = Color666Code(s)
         bd = code.bound
         n = code.n_k_d[0]
@@ -231,6 +236,11 @@ def check_c07(ctx):
             gx, gz = code.syndrome_to_plaquette_indices(sy)
             req2.append('c6_synd %d %s' % (s, bitstr(sy)))
             exp2.append(('color666.syndrome_to_plaquette_indices', inp + ' ' + bitstr(sy), idxs(sorted(gx)) + ' ' + idxs(sorted(gz))))
+
+    for s in _sizes(small):
+        if not guard(ctx, FAM, s, lambda: api(s)):
+            m = min(len(req2), len(exp2))
+            del req2[m:], exp2[m:]
     out = ctx.model(ENGINE, req2)
     for (fn, inp, impl), m in zip(exp2, out):
         ctx.cmp(fn, inp, impl, m)
@@ -255,15 +265,18 @@ def check_c08(ctx):
     from qecsim.models.color import Color666Code
     for s in ctx.pick((3, 5), (3, 5, 7)):
         code = Color666Code(s)
-        direct_distance_check(ctx, FAM, s, code)
+        guard(ctx, FAM, s, lambda: direct_distance_check(ctx, FAM, s, code))
         ctx.count((FAM, 'dist', s), True, 'color666-distance', {'code': repr(code), 'n_k_d': list(code.n_k_d)} if s == 5 else None)
     for s in _sizes(ctx.pick(13, 21)):
         if s <= ctx.pick(5, 7):
             continue
-        code = Color666Code(s)
-        n, k, d = code.n_k_d
-        w = [int(np.count_nonzero(v[:n] + v[n:])) for v in np.vstack([code.logical_xs, code.logical_zs])]
-        if min(w) != d:
-            ctx.violation(FAM + '-logical-weights', 'lightest supplied logical has weight %d, advertised d=%d' % (min(w), d),
-                          {'family': FAM, 'size': s})
+        def lw():
+            code = Color666Code(s)
+            n, k, d = code.n_k_d
+            w = [int(np.count_nonzero(v[:n] + v[n:])) for v in np.vstack([code.logical_xs, code.logical_zs])]
+            if min(w) != d:
+                ctx.violation(FAM + '-logical-weights', 'lightest supplied logical has weight %d, advertised d=%d' % (min(w), d),
+                              {'family': FAM, 'size': s})
+
+        guard(ctx, FAM, s, lw)
         ctx.count((FAM, 'lw', s), True, 'color666-logical-weight')
